@@ -13,4 +13,11 @@ def val(path, schema):
 val('/verif/MANIFEST.json', '/root/.vp/MANIFEST.schema.json') if glob.glob('/verif/MANIFEST.json') else None
 for p in sorted(glob.glob('/verif/evidence/*.json')):
     val(p, '/root/.vp/EVIDENCE.schema.json')
+# on the reference tree every coverage guard must hold, every run must be exhaustive and free of machinery errors
+for p in sorted(glob.glob('/verif/evidence/*.json')):
+    cov = json.load(open(p)).get('coverage', {})
+    bad = [g['name'] for g in cov.get('guards', []) if not g.get('ok')]
+    if bad or not cov.get('exhaustive', True) or cov.get('machinery_errors') or cov.get('notes'):
+        ok = False
+        print("EVIDENCE NOT CLEAN", p, "unmet guards:", bad, "exhaustive:", cov.get('exhaustive'), cov.get('machinery_errors'), cov.get('notes'))
 sys.exit(0 if ok else 1)
